@@ -125,11 +125,24 @@ class Ctx:
         self.stats = Stats()
         self.notes = []
         self.uf = {}
+        self.oneshot = False
+        self._last = None
 
     # -- solver access
     def check(self, *extra):
         t = _now()
-        r = str(self.solver.check(*extra))
+        if self.oneshot:
+            # a fresh non-incremental solver per query: z3 then applies its one-shot tactic pipeline (for QF_FP:
+            # bit-blasting + SAT), far faster than the incremental core on floating-point terms
+            s1 = z3.Solver()
+            s1.set('timeout', self.timeout_ms)
+            s1.add(self.solver.assertions())
+            s1.add(*extra)
+            r = str(s1.check())
+            self._last = s1
+        else:
+            r = str(self.solver.check(*extra))
+            self._last = self.solver
         dt = _now() - t
         if CROSS_DIR is not None and r in ('sat', 'unsat'):
             _cross_dump(self.solver, extra, r)
@@ -140,7 +153,7 @@ class Ctx:
         return r
 
     def model(self):
-        return self.solver.model()
+        return (self._last or self.solver).model()
 
     def assume(self, c):
         if isinstance(c, SBool):
@@ -202,14 +215,14 @@ class Ctx:
         r = self.check()
         if r != 'sat':
             raise Abort('index: ' + r, inconclusive=(r == 'unknown'))
-        hi = self._val(self.solver.model().eval(t, model_completion=True))
+        hi = self._val(self.model().eval(t, model_completion=True))
         while True:
             r = self.check(t < _const_like(t, hi))
             if r == 'unknown':
                 raise Abort('index: unknown')
             if r == 'unsat':
                 return hi
-            hi = self._val(self.solver.model().eval(t, model_completion=True))
+            hi = self._val(self.model().eval(t, model_completion=True))
 
 
 def run_path(fn, decisions, timeout_ms=10000, index_cap=64, setup=None):
